@@ -249,6 +249,12 @@ func (r *Run) Finish(floor int) {
 	if len(r.samples) == 0 {
 		cov["samples"] = []any{"(no case reached the sampling point)"}
 	}
+	if r.assumptions == nil {
+		r.assumptions = []string{}
+	}
+	if r.inconclusive == nil {
+		cov["inconclusive_cases"] = []string{}
+	}
 	ev := map[string]any{
 		"property_id": r.ID, "tier": r.Tier, "seed": r.Seed, "level": r.Level,
 		"coverage": cov, "assumptions": r.assumptions,
